@@ -170,8 +170,55 @@ func isRelayForward(ins ssa.Instruction) bool {
 		case strings.HasPrefix(n, "Deliver") && strings.HasSuffix(n, "ToShardOwner"):
 			return true
 		}
+		// a module helper that passes its argument on on every path (sendToTarget(resp) { ...; return stream.Send(resp) })
+		if sc := flow.StaticCallee(cc); sc != nil && alwaysForwards(sc, 0) {
+			return true
+		}
 	}
 	return false
+}
+
+// alwaysForwards: fn is a module function in which no return is reachable without a stream Send / channel send of
+// a message (one level of wrapping, no recursion into further helpers).
+var alwaysForwardsMemo = map[*ssa.Function]bool{}
+
+func alwaysForwards(fn *ssa.Function, depth int) bool {
+	if fn.Pkg == nil || !strings.HasPrefix(fn.Pkg.Pkg.Path(), modPath) || len(fn.Blocks) == 0 || depth > 0 {
+		return false
+	}
+	if v, ok := alwaysForwardsMemo[fn]; ok {
+		return v
+	}
+	alwaysForwardsMemo[fn] = false
+	direct := func(ins ssa.Instruction) bool {
+		switch x := ins.(type) {
+		case *ssa.Send:
+			ch, ok := x.Chan.Type().Underlying().(*types.Chan)
+			return ok && !isSignalElem(ch.Elem())
+		case *ssa.Call:
+			if x.Call.IsInvoke() {
+				switch x.Call.Method.Name() {
+				case "Send", "SendMsg", "SendAndClose":
+					return true
+				}
+			}
+		}
+		return false
+	}
+	has := false
+	for _, b := range fn.Blocks {
+		for _, ins := range b.Instrs {
+			if direct(ins) {
+				has = true
+			}
+		}
+	}
+	if !has {
+		return false
+	}
+	r := flow.FindPath(flow.Point{Block: fn.Blocks[0]}, flow.IsReturn, direct, nil)
+	alwaysForwardsMemo[fn] = !r.Found
+	return !r.Found
 }
 
 // relayLoopTakes: the takes of f that lie on a cycle.
